@@ -67,7 +67,9 @@ SingleVerdict(c) ==
      ELSE IF c.ok /\ (a.count < N \/ a.lexed < N + 1) THEN "parse succeeded although fewer tokens were counted / lexed than the input has (events missing)"
      ELSE IF c.ok /\ c.tree # c.tree0 THEN "tree under a sufficient limit differs from the unlimited tree"
      ELSE IF c.ok0 /\ ~fits /\ ~a.hit THEN "over-limit input failed without the limit check firing"
-     ELSE IF fits /\ a.hit THEN "limit check fired although the input fits"
+     \* (an input that does not parse anyway may end in the limit error instead of its syntax error when
+     \* the parser consumes the end-of-input token while recovering: the statement only says it fails)
+     ELSE IF c.ok0 /\ fits /\ a.hit THEN "limit check fired although the input parses and fits"
      ELSE "ok"
 
 Verdict(c) == IF c.multi THEN MultiVerdict(c) ELSE SingleVerdict(c)
